@@ -91,12 +91,19 @@ def user_space(H):
     """objectBoundingBox units become user space by mapping the unit square onto the shape's bounding box AFTER the
     gradient's own transform; user-space gradients are left alone."""
     units = H.case("units", ("objectBoundingBox", "userSpaceOnUse"))
+    inplace = H.case("inplace", (True, False))
     gt = Affine2D(*H.reals("g", 6))
     bbox = Rect(H.real("bx"), H.real("by"), H.real("bw"), H.real("bh"))
     H.assume(And(bbox.w > 0, bbox.h > 0))
     g = H.call(SVGLinearGradient, id="g", x1=0.0, y1=0.0, x2=1.0, y2=0.0, gradientTransform=gt, gradientUnits=units)
-    out = H.call(_SVGGradient.as_user_space_units, g, bbox, inplace=True)
-    H.prove(out is g and out.gradientUnits == "userSpaceOnUse", "as_user_space_units.result_is_user_space")
+    out = H.call(_SVGGradient.as_user_space_units, g, bbox, inplace=inplace)
+    if inplace:
+        H.prove(out is g and out.gradientUnits == "userSpaceOnUse", "as_user_space_units.result_is_user_space")
+    else:
+        # the copying form hands back a NEW object and leaves the receiver as it was - also when there is nothing to convert (a caller
+        # that goes on to bake a shape's transform into the result must not be editing the shared source gradient)
+        H.prove(out is not g and out.gradientUnits == "userSpaceOnUse", "as_user_space_units.copying_form_returns_a_new_object")
+        H.prove(g.gradientUnits == units and H.close(tuple(g.gradientTransform), tuple(gt)), "as_user_space_units.copying_form_leaves_the_receiver_alone")
     p = (H.real("px"), H.real("py"))
     if units == "objectBoundingBox":
         q = map_pt(gt, p)
